@@ -40,9 +40,13 @@ def _run(prop, repo):
 
 
 def _apply(repo, patch_text, reverse=False):
-    cmd = ["git", "apply", "--whitespace=nowarn"] + (["-R"] if reverse else []) + ["-"]
-    r = subprocess.run(cmd, cwd=repo, input=patch_text, capture_output=True, text=True)
-    return r.returncode == 0, r.stderr[-300:]
+    # exact first; then with less context (a later fix: commit may have touched the neighbouring line)
+    for extra in ([], ["-C1"], ["-C0", "--unidiff-zero"]):
+        cmd = ["git", "apply", "--whitespace=nowarn"] + extra + (["-R"] if reverse else []) + ["-"]
+        r = subprocess.run(cmd, cwd=repo, input=patch_text, capture_output=True, text=True)
+        if r.returncode == 0:
+            return True, ""
+    return False, r.stderr[-300:]
 
 
 def _one(prop, name, kind, patch_text, reverse, expect_fire):
